@@ -7,26 +7,36 @@ from sa.astx import call_attr, call_name, names_read, src, statements, walk_loca
 from sa.effects import class_accesses
 from sa.selftest import Mutant, Silent
 from sa.source import AnalysisError
-from sa.props._lib_i import sect, COMPAT, BlockRaised, FollowModule, Model, NotPure, Raised, bind_methods, eval_block, interp, module_env, peval
+from sa.props._lib_c import norm_class
+from sa.props._lib_i import sect, COMPAT, BlockRaised, FollowModule, Model, NotPure, Raised, structural, bind_methods, eval_block, interp, module_env, peval
 
 PROPERTY = "C45"
+RULE_KINDS = {
+    # for-all over paths: CFG dominance / provenance / who-may-write / table agreement on the normalised class (private helpers inlined)
+    "resolver/": "structural", "instantiate/": "structural", "getattr/": "structural", "type-policy/": "structural", "unjelly/": "structural",
+    "taster/": "structural", "registry/": "structural", "state/": "structural", "placeholders/": "structural", "policy/defaults-empty": "structural",
+    # second layer: whole methods interpreted under modelled policies on crafted s-expressions
+    "policy-eval/": "bounded", "references/": "bounded", "policy/": "bounded",
+}
 JELLY = "spread/jelly.py"
-TECHNIQUE = "CFG dominance + provenance over _Unjellier; whole-method evaluation under modelled policies"
+TECHNIQUE = "CFG dominance + provenance on normalised _Unjellier; bounded policy scenarios second"
 EXPLANATION = (
-    "Every method of _Unjellier that contains a resolver is evaluated as a whole with a modelled policy (exact-membership module "
-    "allow-lists) and recording resolvers on crafted wire names: a name is resolved only when exactly its module part is allowed, "
-    "whatever idiom derives that part. Structurally, over every method: each resolver sink (namedObject / namedAny / __import__ and relatives; eval/exec are forbidden) "
-    "is dominated by the true branch of self.taster.isModuleAllowed(m), and m is shown - by evaluating the assignment slice on "
-    "sample wire names - to be exactly the module part of the very name that is resolved; every class produced by a resolver is "
-    "returned / instantiated only under a dominating isClassAllowed(cls); every instantiation sink (_genericUnjelly, _newInstance, "
-    "_createBlank) takes a class of accepted provenance (checked resolver, self.unjelly result, registry entry); in unjelly() "
-    "isTypeAllowed on obj[0] dominates all dispatch, registry lookup, dispatch and resolution use that same atom, and dynamic "
-    "getattr on wire names is confined to the '_unjelly_' prefix or to names proven members of the checked class's __dict__; the "
-    "taster is written only in __init__, the module-level unjelly() (default: allow-all policy) and _Unjellier() are never re-entered "
-    "from inside, registries are written only by the setUnjellyable* registration functions. SecurityOptions' three predicates are "
-    "evaluated on a finite domain (exact membership, dotted type names defer to the module/class policy, empty defaults). "
-    "The reference table (_unjelly_dereference / _unjelly_reference) is evaluated: a registered object - also a falsy one - is "
-    "handed back and kept, only an unknown id gets a placeholder. Not decided: full graph equality of jelly/unjelly round trips."
+    'STRUCTURAL (for-all paths; _Unjellier with private helpers inlined and temporaries substituted; a rule that meets a he'
+    'lper it could not inline abstains with a note): every resolver sink (namedObject / namedAny / __import__ ...; eval/exe'
+    'c forbidden) is dominated by the true edge of taster.isModuleAllowed(m) - also through an alias or a cached answer - a'
+    "nd m's assignment slice evaluates to the module part of the resolved name; every return / instantiation of a resolver "
+    'result is dominated by isClassAllowed of it, every value-returning path of the dedicated resolver methods lies under t'
+    'he module policy; every class handed to _genericUnjelly / _newInstance / _createBlank is a checked resolver result, a '
+    "self.unjelly result, a registry entry or the method's own parameter; in unjelly() isTypeAllowed dominates every other "
+    'step and one atom serves policy, registry and resolution; dynamic getattr on wire names is confined to the _unjelly_ p'
+    "refix or to members of the checked class's __dict__; the taster is written only in __init__, no nested unjelly()/_Unje"
+    'llier(), registries written only by the registration functions, no module-level container written from _Unjellier, eve'
+    'ry placeholder test covers all subclasses of crefutil.NotKnown; SecurityOptions defaults are empty / plain value types'
+    '. BOUNDED second layer: whole methods interpreted under modelled policies (permissive first, shared module state) on c'
+    'rafted s-expressions in three shapes - nothing resolved outside the policy, nothing returned when the class is refused'
+    ', only checked values instantiated, refused type atom stops everything; reference-table discipline for falsy / truthy '
+    '/ unknown entries; the three SecurityOptions predicates on sample names. Not decided: full graph equality of jelly/unj'
+    'elly round trips.'
 )
 ASSUMPTIONS = [
     "twisted.python.reflect.namedObject/namedAny import exactly the module part of the dotted name they are given",
@@ -80,6 +90,9 @@ def _slice_values(func, exprs, root_value, funcs):
             continue
         if len(defs[n]) != 1 or not isinstance(defs[n][0], ast.Assign) or len(defs[n][0].targets) != 1 or not isinstance(defs[n][0].targets[0], ast.Name):
             raise AnalysisError(f"{func.name}: `{n}` is not a single plain assignment; name derivation not modelled")
+        if any(isinstance(c, ast.Call) and isinstance(c.func, ast.Attribute) and isinstance(c.func.value, ast.Name) and c.func.value.id == n
+               and c.func.attr in ("append", "extend", "insert", "pop", "remove", "update", "add", "clear", "sort", "reverse") for c in ast.walk(func)):
+            raise AnalysisError(f"{func.name}: `{n}` is built up by mutation; name derivation not modelled")
         needed.add(n)
         order.append(defs[n][0])
         work.extend(names_read(defs[n][0].value))
@@ -216,10 +229,10 @@ def _type_policy_semantics(ctx, f, fq, menv, mod, cls):
             raised = str(ex.exc) if isinstance(ex.exc, RuntimeError) and str(ex.exc).startswith("raise ") else None
             if raised is None:
                 raise AnalysisError(f"unjelly not evaluable for atom {atom!r}: {ex}")
-        ctx.check(bool(raised) and "InsecureJelly" in raised and not observed, "type-policy/first", f"{fq} | refused type atom {atom!r}",
+        ctx.check(bool(raised) and "InsecureJelly" in raised and not observed, "policy-eval/type-refused-first", f"{fq} | refused type atom {atom!r}",
                   f"with a policy refusing the type atom {atom!r}, unjelly() " + ("does not raise InsecureJelly" if not (raised and "InsecureJelly" in raised) else "raises only after")
                   + f" {observed!r}: isTypeAllowed must be consulted, and obeyed, before anything else happens")
-        ctx.check(asked[:1] == [atom], "type-policy/same-atom", f"{fq} | policy asked about {atom!r}",
+        ctx.check(asked[:1] == [atom], "policy-eval/type-atom", f"{fq} | policy asked about {atom!r}",
                   f"for the s-expression [{atom!r}, ...] the type policy is asked about {asked!r}: it must be asked about the very atom that is then looked up and dispatched on")
 
 
@@ -290,7 +303,7 @@ def _resolver_semantics(ctx, f, fq, menv, q="", mod=None, cls=None):
                 module = x if kind == "module" else x.rpartition(".")[0]
                 if module not in allowed and bad is None:
                     bad = (name, sorted(allowed), kind, x, module)
-    ctx.check(bad_inst is None, "instantiate/class-provenance", fq + " | <whole method, what reaches an instantiation sink>",
+    ctx.check(bad_inst is None, "policy-eval/instantiation-provenance", fq + " | <whole method, what reaches an instantiation sink>",
               bad_inst and f"for the s-expression naming {bad_inst[0]!r} the value {bad_inst[1]!r} - taken from the wire, neither a policy-checked resolver result nor an object produced by "
               "self.unjelly / the registries - is handed to an instantiation sink")
     # class policy: module allowed, class refused -> nothing resolved may be returned or instantiated (methods yielding classes / instances only)
@@ -322,10 +335,10 @@ def _resolver_semantics(ctx, f, fq, menv, q="", mod=None, cls=None):
             leaked = (res is not None and res.returned and mentions_resolved(res.value)) or any(m is _Resolved for m in made)
             if leaked and badc is None:
                 badc = name
-        ctx.check(badc is None, "resolver/class-policy", fq + " | <whole method, class refused by the policy>",
+        ctx.check(badc is None, "policy-eval/class-refused", fq + " | <whole method, class refused by the policy>",
                   badc and f"with the module allowed but the class refused (isClassAllowed false), the s-expression naming {badc!r} still makes the method return or instantiate "
                   "the resolved object")
-    ctx.check(bad is None, "resolver/never-resolves-outside-policy", fq + " | <whole method, modelled policy>",
+    ctx.check(bad is None, "policy-eval/never-resolves-outside-policy", fq + " | <whole method, modelled policy>",
               bad and (f"with modules {bad[1]!r} allowed, the s-expression naming {bad[0]!r} makes the method " +
                        ("return an object resolved earlier under a more permissive policy (a memo shared between tasters) although module " if bad[2] == "remembered"
                         else f"resolve {bad[3]!r}, which imports / traverses module ") +
@@ -393,8 +406,12 @@ def check(ctx):
     base = "twisted.spread.jelly."
     funcs = dict(COMPAT)
     menv = module_env(mod)
-    meths = [(q, f) for q, f in mod.functions() if q.startswith("_Unjellier.")]
+    orig_meths = {m.name: m for m in cls.body if isinstance(m, ast.FunctionDef)}
+    keep = {n for n in orig_meths if not n.startswith("_") or n.startswith("_unjelly_") or n in ("_genericUnjelly", "_maybePostUnjelly", "_unjellySetOrFrozenset", "__init__")}
+    ncls = norm_class(ctx, JELLY, "_Unjellier", keep=keep)       # private helpers inlined at their call sites, pure temporaries substituted
+    meths = [(f"_Unjellier.{m.name}", m) for m in ncls.body if isinstance(m, ast.FunctionDef)]
     ctx.need(meths, "_Unjellier methods")
+    known_calls = {"self." + n for n in keep} | {"self.unjelly", "self.unjellyInto", "self.persistentLoad"}
     n_res = n_inst = n_getattr = 0
     def scan_method(q, f):
         nonlocal n_res, n_inst, n_getattr
@@ -409,10 +426,13 @@ def check(ctx):
         sinks = g.find(lambda x: _is_call_to(x, RESOLVERS_OBJECT | RESOLVERS_MODULE))
         semantic = False
         inst_sinks = g.find(lambda x: _is_call_to(x, INSTANTIATORS))
-        reaches_resolver = any(_is_call_to(c, RESOLVERS_OBJECT | RESOLVERS_MODULE) for m in _reachable_methods(cls, f) for c in ast.walk(m))
-        if sinks or inst_sinks or reaches_resolver:
+        fo = orig_meths.get(f.name)
+        # private helpers that could not be inlined: a guard may live there, so the structural rules abstain instead of guessing
+        opaque = sorted({call_name(c) for c in ast.walk(f) if isinstance(c, ast.Call) and (call_name(c) or "").startswith("self._") and call_name(c) not in known_calls})
+        reaches_resolver = fo is not None and any(_is_call_to(c, RESOLVERS_OBJECT | RESOLVERS_MODULE) for m in _reachable_methods(cls, fo) for c in ast.walk(m))
+        if fo is not None and (sinks or inst_sinks or reaches_resolver):
             try:
-                _resolver_semantics(ctx, f, fq, menv, q, mod, cls)
+                _resolver_semantics(ctx, fo, fq, menv, q, mod, cls)
                 semantic = True
             except AnalysisError as ex:
                 ctx.note(f"{q}: whole-method evaluation not possible ({ex}); decided by the structural rules only")
@@ -422,17 +442,23 @@ def check(ctx):
                 name = call_name(call)
                 ctx.need(call.args, f"argument of {name} in {q}")
                 xarg = call.args[0]
-                if semantic:
-                    ctx.ok("resolver/module-policy-dominates", ctx.construct(fq, call), "decided by whole-method evaluation under modelled policies")
-                    continue
                 margs = _guard_args(g, s, "isModuleAllowed")
+                if not margs and opaque:
+                    ctx.note(f"resolver/module-policy-dominates: {q}: no dominating test found but {opaque[0]} could not be inlined; clause left to policy-eval/never-resolves-outside-policy")
+                    continue
                 ok = ctx.check(bool(margs), "resolver/module-policy-dominates", ctx.construct(fq, call),
                                f"{name}({src(xarg)}) can be reached without self.taster.isModuleAllowed(...) having answered true: a name from the wire is "
                                "imported / resolved in a module the policy does not allow", witness=g.describe(g.path([g.entry], [s])))
-                if ok and not semantic:      # fallback only: the whole-method evaluation above decides this clause whenever the method is evaluable
+                if ok:
                     bad = None
                     for sample in SAMPLES:
-                        vals = _slice_values(f, [xarg] + margs, [sample, [b"dictionary"]], funcs)
+                        try:
+                            vals = _slice_values(f, [xarg] + margs, [sample, [b"dictionary"]], FollowModule(mod, dict(funcs), menv))
+                        except AnalysisError as ex:
+                            ctx.note(f"resolver/checked-module-is-resolved-module: {q}: derivation of the module name not a plain assignment slice ({ex}); clause left to "
+                                     "policy-eval/never-resolves-outside-policy")
+                            bad = None
+                            break
                         x, ms = vals[0], vals[1:]
                         xs = x.decode("ascii") if isinstance(x, bytes) else x
                         want = xs if name in RESOLVERS_MODULE else xs.rpartition(".")[0]
@@ -448,21 +474,32 @@ def check(ctx):
                 st = g.node(s).ast
                 var = st.targets[0].id if isinstance(st, ast.Assign) and len(st.targets) == 1 and isinstance(st.targets[0], ast.Name) and st.value is call else None
                 if var is None:
-                    ctx.violation("resolver/class-policy", ctx.construct(fq, call), "the resolved object is used directly without being bound and checked by isClassAllowed")
+                    direct = any((isinstance(x, ast.Call) and call_name(x) in INSTANTIATORS and any(call in list(ast.walk(a)) for a in x.args)) for x in walk_local(st)) or \
+                        (isinstance(st, ast.Return) and st.value is not None and call in list(ast.walk(st.value)) and not any(
+                            isinstance(x, ast.Call) and (call_name(x) or "").startswith("self._") and call_name(x) not in INSTANTIATORS for x in ast.walk(st.value)))
+                    if direct:
+                        ctx.violation("resolver/class-policy", ctx.construct(fq, st),
+                                      "the object resolved from a wire name is returned / instantiated in the same statement that resolves it: no isClassAllowed test can lie in between")
+                    else:
+                        ctx.note(f"resolver/class-policy: {q}: the resolver result is not bound to a local; clause left to policy-eval/class-refused")
                     continue
                 uses = [n for n in g.ids(lambda n: n.kind == "stmt" and n.id != s and n.ast is not None) if
                         (isinstance(g.node(n).ast, ast.Return) and g.node(n).ast.value is not None and var in names_read(g.node(n).ast.value)) or
                         any(isinstance(x, ast.Call) and call_name(x) in INSTANTIATORS | {"self._maybePostUnjelly"} and any(var in names_read(a) for a in x.args)
                             for x in walk_local(g.node(n).ast))]
                 uses = [u for u in uses if g.path([s], [u])]
-                ctx.check(bool(uses), "resolver/class-policy", ctx.construct(fq, call) + " | result used", f"{var} is resolved but never returned or instantiated (rule went blind)")
+                if not uses:
+                    ctx.note(f"resolver/class-policy: {q}: no direct return / instantiation of {var} recognised; clause left to policy-eval/class-refused")
                 for u in uses:
                     ok = any(src(a) == var for a in _guard_args(g, u, "isClassAllowed"))
+                    if not ok and opaque:
+                        ctx.note(f"resolver/class-policy: {q}: no dominating isClassAllowed({var}) found but {opaque[0]} could not be inlined; clause left to policy-eval/class-refused")
+                        continue
                     ctx.check(ok, "resolver/class-policy", ctx.construct(fq, g.node(u).ast),
                               f"the object resolved from a wire name ({var}) is returned / instantiated without self.taster.isClassAllowed({var}) having answered true",
                               witness=g.describe(g.path([s], [u])))
         # ---- R2b every value-returning path of a dedicated resolver method lies under the module policy (early returns of cached values included)
-        if sinks and f.name.startswith("_unjelly_") and not semantic:
+        if sinks and f.name.startswith("_unjelly_") and not opaque:
             for rn in g.ids(lambda n: n.kind == "stmt" and isinstance(n.ast, ast.Return) and n.ast.value is not None
                             and not (isinstance(n.ast.value, ast.Constant) and n.ast.value.value is None)):
                 ctx.check(bool(_guard_args(g, rn, "isModuleAllowed")), "resolver/every-return-under-policy", ctx.construct(fq, g.node(rn).ast),
@@ -473,9 +510,11 @@ def check(ctx):
             for call in [x for x in walk_local(g.node(s).ast) if _is_call_to(x, INSTANTIATORS)]:
                 n_inst += 1
                 carg = call.args[0] if call.args else None
-                why = _class_provenance(ctx, f, g, s, carg, semantic)
-                if why is None and semantic:
-                    why = "decided by whole-method evaluation: only resolver results / unjelly results reach the sink"
+                why = _class_provenance(ctx, f, g, s, carg)
+                if why is None and (opaque or _defined_by_private_call(f, carg)):
+                    ctx.note(f"instantiate/class-provenance: {q}: provenance of {src(carg)} runs through a private helper that could not be inlined; clause left to "
+                             "policy-eval/instantiation-provenance")
+                    continue
                 ctx.check(why is not None, "instantiate/class-provenance", ctx.construct(fq, call),
                           f"the class argument {src(carg)} of {call_name(call)} is neither a policy-checked resolver result, a self.unjelly(...) result, a registry entry "
                           "nor the method's own class parameter: a wire-controlled value is instantiated", detail=why or "")
@@ -525,7 +564,7 @@ def check(ctx):
         ctx.floor("getattr sites", n_getattr, 3)
 
     # ---- R4 unjelly(): type policy first, one atom for everything
-    with sect(ctx, 'R4 unjelly(): type policy first, one atom for everything'), _until_done():
+    with sect(ctx, 'R4 unjelly(): type policy first, one atom for everything'), structural(ctx, "type-policy/first, type-policy/same-atom", "policy-eval/type-refused-first, policy-eval/type-atom"):
         f = ctx.func(JELLY, "_Unjellier.unjelly")
         g = ctx.cfg(f)
         fq = base + "_Unjellier.unjelly"
@@ -535,8 +574,8 @@ def check(ctx):
             type_semantic = True
         except AnalysisError as ex:
             ctx.note(f"unjelly: whole-method evaluation of the type policy not possible ({ex}); decided structurally")
-        if type_semantic:
-            raise _SectionDone()
+        f = next(m for n_, m in meths if m.name == "unjelly")          # the structural rules read the normalised method
+        g = ctx.cfg(f)
         tguards = g.ids(lambda n: n.kind == "test" and _policy_arg(f, n.ast, "isTypeAllowed") is not None)
         ctx.check(len(tguards) >= 1, "type-policy/first", fq + " | isTypeAllowed test", "unjelly() no longer asks the policy whether the type atom is allowed")
         acted = 0
@@ -661,9 +700,20 @@ def check(ctx):
         _check_security_options(ctx, mod, funcs)
 
 
-def _class_provenance(ctx, f, g, sink, carg, semantic=False):
+def _defined_by_private_call(f, carg):
+    if not isinstance(carg, ast.Name):
+        return False
+    return any(isinstance(st, ast.Assign) and any(isinstance(t, ast.Name) and t.id == carg.id for t in st.targets) and isinstance(st.value, ast.Call)
+               and (call_name(st.value) or "").startswith("self._") and call_name(st.value) not in ("self._genericUnjelly",) for st in ast.walk(f))
+
+
+def _class_provenance(ctx, f, g, sink, carg):
     if carg is None:
         return None
+    if isinstance(carg, ast.Call) and call_name(carg) == "self.unjelly":
+        return "result of self.unjelly(...) (produced by the checked sites)"
+    if isinstance(carg, ast.Call) and call_attr(carg) == "get" and isinstance(carg.func.value, ast.Name) and carg.func.value.id in REGISTRY_WRITERS.values():
+        return "registry entry"
     if not isinstance(carg, ast.Name):
         return None
     params = [a.arg for a in f.args.args]
@@ -677,9 +727,9 @@ def _class_provenance(ctx, f, g, sink, carg, semantic=False):
         return "result of self.unjelly(...) (produced by the checked sites)"
     if isinstance(v, ast.Call) and call_attr(v) == "get" and isinstance(v.func.value, ast.Name) and v.func.value.id in REGISTRY_WRITERS.values():
         return "registry entry"
+    if isinstance(v, ast.Name) and v.id != carg.id:          # alias of another local (e.g. left by inlining `x = helper()`): follow it
+        return _class_provenance(ctx, f, g, sink, v)
     if _is_call_to(v, RESOLVERS_OBJECT):
-        if semantic:
-            return "resolver result (class policy decided by whole-method evaluation)"
         if any(src(a) == carg.id for a in _guard_args(g, sink, "isClassAllowed")):
             return "resolver result under isClassAllowed"
     return None
@@ -743,7 +793,7 @@ MUTANTS = [
            "            clz = namedObject(jelTypeText)\n", expect_rule="resolver/class-policy"),
     Mutant("class-atom-class-check-dropped", JELLY, '        if not self.taster.isClassAllowed(klaus):\n            raise InsecureJelly("class not allowed: %s" % qual(klaus))\n        return klaus\n', "        return klaus\n",
            expect_rule="resolver/class-policy"),
-    Mutant("module-part-too-short", JELLY, '        modName = nativeString(".").join(clist[:-1])\n', '        modName = nativeString(".").join(clist[:1])\n', expect_rule="resolver/never-resolves-outside-policy"),
+    Mutant("module-part-too-short", JELLY, '        modName = nativeString(".").join(clist[:-1])\n', '        modName = nativeString(".").join(clist[:1])\n', expect_rule="policy-eval/never-resolves-outside-policy"),
     Mutant("module-check-logged-not-enforced", JELLY, '        if not self.taster.isModuleAllowed(moduleName):\n            raise InsecureJelly(f"Attempted to unjelly module named {moduleName!r}")\n',
            '        if not self.taster.isModuleAllowed(moduleName):\n            warnings.warn(f"Attempted to unjelly module named {moduleName!r}")\n', expect_rule="resolver/"),
     Mutant("instance-atom-resolves-name-itself", JELLY, "        clz = self.unjelly(rest[0])\n        return self._genericUnjelly(clz, rest[1])\n",
@@ -757,10 +807,10 @@ MUTANTS = [
            expect_rule="type-policy/first"),
     Mutant("cached-answer-of-a-different-name", JELLY, '        if not self.taster.isModuleAllowed(modName):\n            raise InsecureJelly("Module not allowed: %s" % modName)\n',
            '        allowed = self.taster.isModuleAllowed(modSplit[0])\n        if not allowed:\n            raise InsecureJelly("Module not allowed: %s" % modName)\n',
-           expect_rule="resolver/never-resolves-outside-policy"),
+           expect_rule="policy-eval/never-resolves-outside-policy"),
     Mutant("function-any-allowed-prefix", JELLY, '        modName = nativeString(".").join(modSplit[:-1])\n        if not self.taster.isModuleAllowed(modName):\n            raise InsecureJelly("Module not allowed: %s" % modName)\n',
            '        cut = len(modSplit) - 1\n        while cut > 0 and not self.taster.isModuleAllowed(nativeString(".").join(modSplit[:cut])):\n            cut -= 1\n'
-           '        if cut == 0:\n            raise InsecureJelly("Module not allowed: %s" % fname)\n', expect_rule="resolver/never-resolves-outside-policy"),
+           '        if cut == 0:\n            raise InsecureJelly("Module not allowed: %s" % fname)\n', expect_rule="policy-eval/never-resolves-outside-policy"),
     Mutant("dereference-truthiness-test", JELLY, "        if x is not None:\n            return x\n        der = _Dereference(refid)\n        self.references[refid] = der\n        return der\n",
            "        if x:\n            return x\n        der = _Dereference(refid)\n        self.references[refid] = der\n        return der\n", expect_rule="references/table-discipline"),
     Mutant("class-memo-shared-between-tasters", JELLY, '        clist = cname.split(nativeString("."))\n        modName = nativeString(".").join(clist[:-1])\n        if not self.taster.isModuleAllowed(modName):\n            raise InsecureJelly("module %s not allowed" % modName)\n',
@@ -774,7 +824,7 @@ MUTANTS = [
     Mutant("helper-resolves-before-asking", JELLY, '            nameSplit = jelTypeText.split(".")\n            modName = ".".join(nameSplit[:-1])\n            if not self.taster.isModuleAllowed(modName):\n                raise InsecureJelly(\n                    f"Module {modName} not allowed (in type {jelTypeText})."\n                )\n            clz = namedObject(jelTypeText)\n',
            "            clz = self._lookup(jelTypeText)\n",
            more=[(JELLY, "    def _genericUnjelly(self, cls, state):\n", "    def _lookup(self, dotted):\n        found = namedObject(dotted)\n        if not self.taster.isModuleAllowed(dotted.rpartition(\".\")[0]):\n            raise InsecureJelly(\"Module not allowed.\")\n        return found\n\n    def _genericUnjelly(self, cls, state):\n")],
-           expect_rule="resolver/never-resolves-outside-policy"),
+           expect_rule="policy-eval/never-resolves-outside-policy"),
     Mutant("module-policy-prefix-match", JELLY, "        return moduleName in self.allowedModules\n", "        return any(moduleName.startswith(m) for m in self.allowedModules)\n",
            expect_rule="policy/module-exact-membership"),
     Mutant("type-policy-allows-code-atoms-by-default", JELLY, '            b"frozenset": 1,\n        }\n', '            b"frozenset": 1,\n            b"function": 1,\n        }\n', expect_rule="policy/defaults-empty"),
